@@ -94,7 +94,7 @@ def r1a(c, reg):
     # (2)
     mp = repo.func(PATCHING, "make_patch")
     pv2 = Provenance(mp)
-    dyn = [x for x in calls_in(mp) if isinstance(x.func, ast.Subscript)]
+    dyn = [x for x in calls_in(mp) if isinstance(pv2.resolve_alias(x.func), ast.Subscript)]
     if len(dyn) != 1:
         raise AnchorError("make_patch: dynamic logic call attrs['logic'](...) not found")
     rule_arg = kwarg(dyn[0], "rule", 0)
@@ -124,9 +124,9 @@ def r1a(c, reg):
             for x in calls_in(f):
                 if repo.enclosing_func(x) is not f:
                     continue
-                dynamic = isinstance(x.func, ast.Subscript)
+                p = Provenance(f)
+                dynamic = isinstance(p.resolve_alias(x.func), ast.Subscript)
                 if isinstance(x.func, ast.Name) and x.func.id not in ("super",):
-                    p = Provenance(f)
                     ds = p.rd.defs(x.func)
                     if ds and all(d.kind in ("for", "unpack", "assign") for d in ds) and not repo.resolve_call(mm, x) and x.func.id not in mm.defs and x.func.id not in mm.imports \
                             and x.func.id not in dir(__builtins__) and not any(x.func.id == st.name for st in ast.walk(f) if isinstance(st, ast.FunctionDef)):
@@ -169,9 +169,16 @@ def r1b(c, reg):
     logic_fns = {id(fn): name for name, m, fn in reg["logic"]}
     dlogic_fns = {id(fn): name for name, m, fn in reg["diff_logic"]}
 
-    def dynamic(mod, call):
+    pvs = {}
+
+    def dynamic(mod, call, fn=None):
         # attrs["logic"](rule=..., diff=...)  /  logic(old=..., new=...)
-        if isinstance(call.func, ast.Subscript) and "logic" in norm(call.func):
+        cf = call.func
+        if fn is not None and isinstance(cf, ast.Name):
+            if id(fn) not in pvs:
+                pvs[id(fn)] = Provenance(fn)
+            cf = pvs[id(fn)].resolve_alias(cf)
+        if isinstance(cf, ast.Subscript) and "logic" in norm(cf):
             return [(m, fn.name, fn) for name, m, fn in reg["logic"]]
         if isinstance(call.func, ast.Name) and call.func.id == "logic" and any(k.arg == "diff_pre" for k in call.keywords):
             return [(m, fn.name, fn) for name, m, fn in reg["diff_logic"]]
